@@ -93,6 +93,19 @@ def declared(p):
     return x, float(tr.functionValues[0].value)
 
 
+def guarded(fn, *a):
+    """(result, None), or (None, description) when the implementation raised: the oracles report that as a violation
+    (clause "exception") instead of crashing"""
+    import traceback
+    try:
+        return fn(*a), None
+    except Infra:
+        raise
+    except Exception as e:  # noqa: BLE001
+        tb = traceback.extract_tb(e.__traceback__)[-3:]
+        return None, {"error": repr(e), "traceback": [f"{f.filename}:{f.lineno} in {f.name}" for f in tb]}
+
+
 def nprs(r):
     """numpy generator seeded from the python generator `r` (all randomness comes from r)"""
     return np.random.RandomState(r.getrandbits(32))
